@@ -166,6 +166,11 @@ func run(r *core.Run) {
 		r.Check(out != core.Panic, "panic:"+op, what+" panics: "+firstLine(core.LastPanic))
 		r.Check(out != "timeout" && out != "oom", "hang:"+op, what+" does not terminate / exhausts memory: "+out)
 	}
+	// 0. the SQL tokenizer against its Lean model (proof level; see tokens.go)
+	runTokens(r)
+	if os.Getenv("VERIF_C14_ONLY") == "tokens" { // development aid: only the tokenizer slice
+		return
+	}
 	// 1. SQL
 	var sql [][]byte
 	for _, s := range sqlSeeds {
